@@ -50,6 +50,10 @@ def call_shape(g, shape, a):
                 a[k] = cv(a[k])
         if "targets" in a:
             a["targets"] = [cv(p) for p in a["targets"]]
+        if form == "np":
+            for k in ("radius", "pitch"):          # scalar arguments as numpy scalars (what np.hypot / array indexing hand out)
+                if k in a:
+                    a[k] = np.float64(a[k])
     if shape == "arc":
         t.arc(a["target"], a["center"], **kw)
     elif shape == "arc_radius":
@@ -74,10 +78,14 @@ def call_shape(g, shape, a):
         raise ValueError(shape)
 
 
+def passive_hook(origin, target, params, state):
+    return params
+
+
 class TraceRun:
     """One builder with a known start position; shapes are traced one after another."""
 
-    def __init__(self, start, mode, direction, resolution, dp=8, units=None):
+    def __init__(self, start, mode, direction, resolution, dp=8, units=None, hook=False, transform=False):
         self.st = Sut({"decimal_places": dp})
         g = self.st.g
         self.dp = dp
@@ -86,7 +94,16 @@ class TraceRun:
             g.set_length_units(units)
         g.set_resolution(float(resolution))
         g.set_direction(direction)
-        g.set_axis(x=start[0], y=start[1], z=start[2])
+        if hook:
+            g.add_hook(passive_hook)          # hooks see every move; this one hands the parameters back unchanged
+        if transform:
+            # a linear transform installed before the first motion; the start is reached by a full absolute move so that
+            # machine and builder agree (machine = transform(start)) from the beginning
+            g.transform.scale(2.0)
+            g.transform.rotate(30.0, "z")
+            g.move(x=start[0], y=start[1], z=start[2])
+        else:
+            g.set_axis(x=start[0], y=start[1], z=start[2])
         g.set_distance_mode(mode)
         self.mode = mode
         self._drain()
